@@ -1,0 +1,16 @@
+//go:build verif
+
+// Contracts for the cluster interfaces other layers program against (read as text by /verif's
+// govc; comment-only).
+
+package aspen
+
+//@ import node "github.com/synnaxlabs/aspen/internal/node"
+//@ import address "github.com/synnaxlabs/x/address"
+
+//@ # the key of the host node never changes
+//@ pure func (h HostProvider) HostKey() node.Key
+
+//@ # resolving a node's address has no effect on the caller's state; it may fail
+//@ trusted func (r Resolver) Resolve(key node.Key) (a address.Address, err error)
+//@   modifies nothing
